@@ -72,6 +72,12 @@ impl DnsRig {
     }
 
     /// Panics in the server log / death of the process, as a failure.
+    /// true while no new panic line has appeared (does not move the watermark)
+    pub fn health_peek(&self) -> bool {
+        let mut s = self.server.lock().unwrap();
+        s.panics().len() <= self.panics_seen.load(std::sync::atomic::Ordering::Relaxed) && s.alive()
+    }
+
     pub fn health(&self) -> Option<Fail> {
         let mut s = self.server.lock().unwrap();
         let p = s.panics();
@@ -118,6 +124,9 @@ pub struct RelayCase {
     /// doing 0x20 randomisation does); it must get *its own* question back, octet for octet
     #[serde(default)]
     pub requery_flip_case: bool,
+    /// the second query uses the other transport (what a client does after seeing TC)
+    #[serde(default)]
+    pub requery_other_transport: bool,
 }
 
 fn query_edns_strategy() -> impl Strategy<Value = Option<dns::Edns>> {
@@ -196,6 +205,7 @@ pub fn relay_case_strategy(sz: MsgSize, allow_requery: bool) -> impl Strategy<Va
                 compress,
                 requery_ms,
                 requery_flip_case,
+                requery_other_transport: false,
             }
         })
 }
@@ -212,6 +222,8 @@ pub struct Exchange {
     pub second: Option<(Vec<Got>, Duration)>,
     /// the question of the second query (differs from `question` in letter case only)
     pub second_question: Option<dns::Question>,
+    /// transport of the second query
+    pub second_tcp: bool,
     pub upstream_count: usize,
     pub err: Option<String>,
 }
@@ -247,6 +259,8 @@ impl<'a> C03Relay<'a> {
             qkey(&question),
             Script {
                 reply: Reply::Model(c.reply.clone(), compress),
+                // the forwarder advertises 4096 octets; a real upstream keeps to that over UDP
+                udp_truncate_to: if self.mode == "C04" { Some(4096) } else { None },
                 ..Default::default()
             },
         );
@@ -278,6 +292,7 @@ impl<'a> C03Relay<'a> {
             upstream_sent: sent,
             second: None,
             second_question: None,
+            second_tcp: c.tcp != c.requery_other_transport,
             upstream_count: 0,
             err: None,
         };
@@ -313,7 +328,15 @@ impl<'a> C03Relay<'a> {
                 );
             }
             let b2 = dns::encode(&q2, dns::Compress::Off);
-            if let Ok(g) = run(&b2) {
+            let run2 = |b: &[u8]| -> Result<Vec<Got>, String> {
+                if ex.second_tcp {
+                    let _g = self.rig.tcp_serial.lock().unwrap();
+                    tcp_exchange_linger(None, dst, b, &[], Duration::from_secs(4), Duration::from_millis(15))
+                } else {
+                    udp_exchange(src, dst, b, Duration::from_secs(4), Duration::from_millis(120))
+                }
+            };
+            if let Ok(g) = run2(&b2) {
                 ex.second = Some((g, t0.elapsed()));
                 ex.second_question = Some(question2.clone());
             }
@@ -444,6 +467,38 @@ impl<'a> C03Relay<'a> {
     }
 
     fn judge_c04(&self, c: &RelayCase, ex: &Exchange, out: &mut Outcome) {
+        self.judge_c04_one(c, ex, out);
+        // the same question again, over TCP: complete, whatever the first exchange left behind
+        if out.fail.is_none() && ex.second_tcp {
+            if let Some((g2, _)) = &ex.second {
+                if let Some(g) = g2.first() {
+                    out.class("asked-again-over-tcp");
+                    let nrec = ex.upstream_sent.records().filter(|r| r.rtype != dns::T_OPT).count();
+                    match dns::decode(&g.bytes) {
+                        Err(e) => out.fail("C04:malformed-response", format!("second query over TCP: {}", e)),
+                        Ok((r, _)) => {
+                            let got_rec = r.records().filter(|r| r.rtype != dns::T_OPT).count();
+                            let fits = dns::encode(&ex.upstream_sent, dns::Compress::All).len() + 400 < 65535;
+                            if fits && (r.header.tc || got_rec != nrec) {
+                                out.fail(
+                                    "C04:tcp-response-truncated",
+                                    format!(
+                                        "asked again over TCP after a {} exchange: {} of {} records, TC={}",
+                                        if c.tcp { "TCP" } else { "UDP" },
+                                        got_rec,
+                                        nrec,
+                                        r.header.tc
+                                    ),
+                                );
+                            }
+                        }
+                    }
+                }
+            }
+        }
+    }
+
+    fn judge_c04_one(&self, c: &RelayCase, ex: &Exchange, out: &mut Outcome) {
         let up_full = dns::encode(&ex.upstream_sent, dns::Compress::All).len();
         let advertised = c.edns.as_ref().map(|e| e.udp_size as usize).unwrap_or(512).max(512);
         if ex.got.is_empty() {
@@ -652,6 +707,7 @@ pub fn run_c04_wire(ctx: &Ctx) {
             compress: 0,
             requery_ms: None,
             requery_flip_case: false,
+            requery_other_transport: false,
         };
         let out = exec_one(&prop, &case);
         ctx.record(prop.sub(), &case, &out);
@@ -687,11 +743,54 @@ pub fn run_c04_wire(ctx: &Ctx) {
                 compress: 0,
                 requery_ms: None,
                 requery_flip_case: false,
+                requery_other_transport: false,
             })
             .collect();
         let outs = prop.exec_batch(&cases);
         for (case, mut out) in cases.iter().zip(outs.into_iter()) {
             out.class("udp-answer-around-the-advertised-size");
+            ctx.record(prop.sub(), case, &out);
+            if let Some(f) = out.fail {
+                if ctx.is_known(&f.sig) {
+                    ctx.known_hit(&f.sig);
+                } else {
+                    ctx.violation(prop.sub(), &f, case);
+                    return;
+                }
+            }
+        }
+    }
+    // answers larger than the 4096 octets the forwarder advertises upstream: the scripted
+    // upstream truncates over UDP as a real one does; the client asks over UDP (advertising
+    // 512..4096 or nothing), sees TC, and asks again over TCP - where the answer must be whole
+    {
+        let mut cases = vec![];
+        for (k, (nrec, adv)) in [(300usize, None), (400, Some(1232u16)), (500, Some(4096)), (900, Some(512)), (350, Some(4095)), (2000, Some(1232))].into_iter().enumerate() {
+            cases.push(RelayCase {
+                qname: vec![format!("big{}", k).into_bytes()],
+                qtype: 1,
+                qclass: 1,
+                cd: false,
+                ad: false,
+                edns: adv.map(|u| dns::Edns { udp_size: u, ext_rcode: 0, version: 0, do_bit: false, options: vec![] }),
+                tcp: false,
+                v4: k % 2 == 0,
+                reply: dns::Message {
+                    header: dns::Header { qr: true, rd: true, ra: true, ..Default::default() },
+                    answer: (0..nrec)
+                        .map(|i| dns::Rr { name: vec![b"x".to_vec()], rtype: 1, class: 1, ttl: 120, rdata: dns::RData::Raw(vec![10, 1, (i >> 8) as u8, i as u8]) })
+                        .collect(),
+                    ..Default::default()
+                },
+                compress: 0,
+                requery_ms: Some(50),
+                requery_flip_case: false,
+                requery_other_transport: true,
+            });
+        }
+        let outs = prop.exec_batch(&cases);
+        for (case, mut out) in cases.iter().zip(outs.into_iter()) {
+            out.class("truncated-upstream-udp-answer-then-tcp");
             ctx.record(prop.sub(), case, &out);
             if let Some(f) = out.fail {
                 if ctx.is_known(&f.sig) {
